@@ -79,9 +79,13 @@ impl FromStr for GameState {
                 .map(|(_, s)| s)
                 .enumerate()
             {
-                let idx = (row_idx * BOARD_WIDTH + col_idx) as u8;
-                let square = Square::from_index(idx);
                 if let Some((piece, is_p1)) = convert_char_to_piece(charr) {
+                    if row_idx >= BOARD_HEIGHT || col_idx >= BOARD_WIDTH {
+                        return Err(anyhow::anyhow!("Piece outside of the 8x8 board"));
+                    }
+
+                    let idx = (row_idx * BOARD_WIDTH + col_idx) as u8;
+                    let square = Square::from_index(idx);
                     let square_bit = square.as_bit_board();
 
                     match piece {
